@@ -53,6 +53,10 @@ type mxConn struct {
 	// MX/TLS security level established for this connection.
 	mxLevel  module.MXLevel
 	tlsLevel module.TLSLevel
+
+	// The connection was opened for a message that had security policies
+	// disabled (TLS-Required: No), no policy checks were done for it.
+	policiesSkipped bool
 }
 
 func (c *mxConn) Usable() bool {
@@ -287,6 +291,8 @@ func (rd *remoteDelivery) newConn(ctx context.Context, domain string) (*mxConn, 
 		C:          smtpconn.New(),
 		domain:     domain,
 		lastUseAt:  time.Now(),
+
+		policiesSkipped: len(rd.policies) != len(rd.rt.policies),
 	}
 
 	conn.Dialer = rd.rt.dialer
